@@ -43,6 +43,9 @@ func c14Kinds(c *core.Ctx, k int) *core.Result {
 	n := 4 + r.N(7)
 	for st := 0; st < n; st++ {
 		ki := r.N(len(c14KindKeys))
+		if k%4 == 0 { // histories with symbol keys only
+			ki = r.N(4)
+		}
 		_, live := vals[ki]
 		var text string
 		if live && r.N(4) == 0 {
@@ -112,9 +115,29 @@ func c14Kinds(c *core.Ctx, k int) *core.Result {
 		!check("range-for", "(def acc8 []) {for k, v := range h { (set acc8 (append acc8 (str k))) }} (str acc8)", `"[`+c14Quoted(wantKeys)+`]"`) {
 		return res
 	}
+	// the one-variable form (its key variable is defined again on every iteration)
+	kinds := map[byte]bool{}
+	for _, ki := range order {
+		kinds[c14KindKeys[ki].src[0]] = true
+	}
+	mixed := ""
+	if nk := len(kinds) - btoi(kinds['-'] && kinds['7'] || kinds['-'] && kinds['0']); nk > 1 || (kinds['"'] && len(kinds) > 1) {
+		mixed = ":keys-of-several-types"
+	}
+	res.Ev("range_iterations", 1)
+	if !check("range-for-one-variable"+mixed, "(def acc7 []) {for k := range h { (set acc7 (append acc7 (str k))) }} (str acc7)", `"[`+c14Quoted(wantKeys)+`]"`) {
+		return res
+	}
 	res.Input = strings.Join(hist, " ")
 	res.Hash = core.HashOf(res.Input)
 	return res
+}
+
+func btoi(b bool) int {
+	if b {
+		return 1
+	}
+	return 0
 }
 
 // the printed form of an array of the strings that (str k) gives
